@@ -405,7 +405,10 @@ class Node(object):
         server.cust = False
         server.busy = False
         individual.server = False
-        server.busy_time = self.increment_time(server.busy_time, individual.exit_date - individual.service_start_date)
+        counted_from = individual.service_start_date
+        if counted_from is not False and server.busy_time_counted_until > counted_from:
+            counted_from = server.busy_time_counted_until
+        server.busy_time = self.increment_time(server.busy_time, individual.exit_date - counted_from)
         server.total_time = self.now - server.start_date
         if server.offduty:
             self.kill_server(server)
@@ -860,7 +863,8 @@ class Node(object):
             for srvr in self.servers:
                 srvr.total_time = self.increment_time(current_time, -srvr.start_date)
                 if srvr.busy:
-                    srvr.busy_time += self.increment_time(current_time, -srvr.cust.service_start_date)
+                    srvr.busy_time += self.increment_time(current_time, -max(srvr.cust.service_start_date, srvr.busy_time_counted_until))
+                    srvr.busy_time_counted_until = self.increment_time(current_time, 0)
 
     def write_individual_record(self, individual):
         """
